@@ -306,6 +306,11 @@ def extract():
     cv = {int(-num(c.slice.upper)) for c in cuts}
     if cv != {out["VCF_ALT_READS"]}:
         raise ExtractorMismatch("_load_vcf: [:-10] removals do not equal the per-copy support")
+    # `for gt in g: pos, op = hgvs[gt]; if <skip>: continue` - are alleles of ignored shape (op None) skipped?
+    skips = [n for n in ast.walk(lv) if isinstance(n, ast.If) and len(n.body) >= 1 and isinstance(n.body[0], ast.Continue) and "op" in src(n.test)
+             and ("'_'" in src(n.test) or '"_"' in src(n.test))]
+    sk = one(skips, "_load_vcf: skip test for reference alleles")
+    out["VCF_SKIPS_NONE"] = "op is None" in src(sk.test) or "op == None" in src(sk.test) or "not op" in src(sk.test)
     si = func(sam, "Sample", "__init__")
     dg = find_all(si, lambda n: isinstance(n, ast.Compare) and "diploid_avg_coverage" in src(n.left) and isinstance(n.ops[0], ast.Lt))
     out["DIPLOID_MIN_COV"] = num(one(dg, "Sample: diploid_avg_coverage() < K").comparators[0])
@@ -338,6 +343,7 @@ def emit(c) -> str:
     for k in ["ESCAPE_MAXLEN", "VCF_ALT_READS", "VCF_REF_READS", "VCF_QUAL"]:
         A(f"def {k} : Nat := {c[k]}")
     A(f"def GUARD_REQUIRES_CN_REGION : Bool := {'true' if c['GUARD_REQUIRES_CN_REGION'] else 'false'}")
+    A(f"def VCF_SKIPS_NONE : Bool := {'true' if c['VCF_SKIPS_NONE'] else 'false'}")
     A(f"def CN_PCE_VAR : String := {lean_str(c['CN_PCE_VAR'])}")
     A("")
     A("/-- `escape_name`: replacements in application order. -/")
